@@ -45,6 +45,7 @@ type OracleOut struct {
 	Steps    []int64  `json:"steps,omitempty"`
 	Output   int64    `json:"output_bytes"` // bytes written to fd 1/2 during the calls
 	ArgMut   []string `json:"arg_mutated,omitempty"`
+	Hung     int      `json:"hung"` // index (in IDs) of a call that never returned, -1 if none
 }
 
 // Event mirrors simrt.Event.
